@@ -286,6 +286,7 @@ Record case := mk_case {
   c_self : view;       (* view of the operation the merge transaction starts from *)
   c_base : view;       (* common ancestor operation *)
   c_other : view;      (* the operation merged in *)
+  c_other2 : option view;  (* a third concurrent operation, merged in after [c_other] *)
   c_merged : view;     (* impl: view of the reconciling operation *)
   c_failed : bool;
 }.
@@ -372,19 +373,40 @@ Definition wc_ok (self base other merged : view) (name : N) : bool :=
 Definition okb (c : case) : bool :=
   negb (c_failed c) &&
   (let s := c_self c in let b := c_base c in let o := c_other c in let r := c_merged c in
-   kept_changes s b o r && kept_changes o b s r
-   && removed_hidden s b r && removed_hidden o b r
-   && forallb (bookmark_ok s b o r)
-        (union_keys (map fst (v_bookmarks s)) (union_keys (map fst (v_bookmarks b))
-           (union_keys (map fst (v_bookmarks o)) (map fst (v_bookmarks r)))))
-   && forallb (wc_ok s b o r)
-        (union_keys (map fst (v_wc s)) (union_keys (map fst (v_wc b))
-           (union_keys (map fst (v_wc o)) (map fst (v_wc r)))))).
+   match c_other2 c with
+   | None =>
+       kept_changes s b o r && kept_changes o b s r
+       && removed_hidden s b r && removed_hidden o b r
+       && forallb (bookmark_ok s b o r)
+            (union_keys (map fst (v_bookmarks s)) (union_keys (map fst (v_bookmarks b))
+               (union_keys (map fst (v_bookmarks o)) (map fst (v_bookmarks r)))))
+       && forallb (wc_ok s b o r)
+            (union_keys (map fst (v_wc s)) (union_keys (map fst (v_wc b))
+               (union_keys (map fst (v_wc o)) (map fst (v_wc r)))))
+   | Some o2 =>
+       (* three sides: what each side removed stays hidden; a change a side has is still
+          represented unless no other side has it any more *)
+       removed_hidden s b r && removed_hidden o b r && removed_hidden o2 b r
+       && forallb (fun side =>
+             forallb (fun c =>
+                existsb (N.eqb (change_of c)) (changes_of (v_heads r))
+                || (visible (v_heads b) c
+                    && negb (forallb (fun other => existsb (N.eqb (change_of c)) (changes_of (v_heads other)))
+                                     [s; o; o2])))
+               (ancs (v_heads side))) [s; o; o2]
+   end).
 
 Definition check_case (c : case) : N :=
   let corr := negb (c_failed c) &&
               match merge_views (c_self c) (c_base c) (c_other c) with
-              | Some v => view_eqb v (c_merged c)
+              | Some v =>
+                  match c_other2 c with
+                  | None => view_eqb v (c_merged c)
+                  | Some o2 => match merge_views v (c_base c) o2 with
+                               | Some v2 => view_eqb v2 (c_merged c)
+                               | None => true
+                               end
+                  end
               | None => true          (* divergent rewrites: not modelled, checker only *)
               end in
   verdict corr (okb c) false 1.
